@@ -54,6 +54,9 @@ fn slice(tier: Tier) -> Vec<(String, PProblem)> {
         out.extend(picked.into_iter().map(|p| (name.to_string(), p)));
     }
     out.extend(family_combo(2).into_iter().filter(|p| p.clustering.is_none()).step_by(tier.pick(16, 1)).map(|p| ("combo".to_string(), p)));
+    // vicinity clustering (built by parallel code before the search starts): full solves under every layout only
+    out.extend(family_cluster_tw().into_iter().step_by(tier.pick(24, 4)).map(|p| ("cluster".to_string(), p)));
+    out.extend(family_combo(2).into_iter().filter(|p| p.clustering.is_some()).step_by(tier.pick(6, 1)).map(|p| ("cluster".to_string(), p)));
     out
 }
 
@@ -360,6 +363,10 @@ pub fn worker(ctx: &RunCtx, shard: usize, of: usize, _extra: &Extra) -> Report {
     let mut report = Report::new("model_checking");
     for (idx, (family, problem)) in slice(ctx.tier).iter().enumerate() {
         if idx % of != shard {
+            continue;
+        }
+        if family == "cluster" {
+            solve_axis(family, problem, &mut report);
             continue;
         }
         match World::new(family, problem) {
